@@ -63,6 +63,17 @@ CASES = [Case('A: n % bs > 0, last group', True, True), Case('B: n % bs > 0, ear
          Case('C: n % bs == 0, last group', False, True), Case('D: n % bs == 0, earlier group', False, False)]
 
 
+def _arith(e):
+    """an integer expression (not an array or buffer): only arithmetic over names, constants, element look-ups and
+    min / max / len / int / pad calls."""
+    for x in ast.walk(e):
+        if isinstance(x, ast.Call) and U(x.func).split('.')[-1] not in ('min', 'max', 'len', 'int', 'pad', 'abs'):
+            return False
+        if isinstance(x, (ast.Slice, ast.ListComp, ast.Dict, ast.List, ast.Lambda, ast.JoinedStr)):
+            return False
+    return True
+
+
 class Undecided(Exception):
     pass
 
@@ -162,15 +173,25 @@ class GroupCount:
                 if len(b) == 1 and len(e) == 1 and len(n.body) == 1 and len(n.orelse) == 1 and \
                         isinstance(b[0].targets[0], ast.Name) and U(b[0].targets[0]) == U(e[0].targets[0]):
                     txt = U(n.test) + U(b[0].value) + U(e[0].value)
-                    if bs in txt and self._mentions_count(n):
+                    if bs in txt and self._mentions_count(n) and _arith(b[0].value) and _arith(e[0].value):
                         out.append((U(b[0].targets[0]), n, ('if', n.test, b[0].value, e[0].value)))
             elif isinstance(n, ast.Assign) and len(n.targets) == 1 and isinstance(n.targets[0], ast.Name):
                 v = n.value
-                if isinstance(v, ast.IfExp) and bs in U(v) and self._mentions_count(v):
+                if isinstance(v, ast.IfExp) and bs in U(v) and self._mentions_count(v) and _arith(v.body) and _arith(v.orelse):
                     out.append((n.targets[0].id, n, ('if', v.test, v.body, v.orelse)))
                 elif isinstance(v, ast.Call) and U(v.func) in ('min', 'max') and len(v.args) == 2 and bs in U(v) \
                         and self._mentions_count(v):
                     out.append((n.targets[0].id, n, (U(v.func), v.args[0], v.args[1])))
+        # the count used in place, without a name: `for i in range(min(bs, n - g*bs))`
+        for n in ast.walk(self.loop):
+            if isinstance(n, ast.For) and isinstance(n.iter, ast.Call) and U(n.iter.func) == 'range' and len(n.iter.args) == 1:
+                v = n.iter.args[0]
+                nm = '<bound of the loop over %s>' % U(n.target)
+                if isinstance(v, ast.IfExp) and bs in U(v) and self._mentions_count(v) and _arith(v.body) and _arith(v.orelse):
+                    out.append((nm, n, ('if', v.test, v.body, v.orelse)))
+                elif isinstance(v, ast.Call) and U(v.func) in ('min', 'max') and len(v.args) == 2 and bs in U(v) \
+                        and self._mentions_count(v):
+                    out.append((nm, n, (U(v.func), v.args[0], v.args[1])))
         return out
 
     def _mentions_count(self, node):
